@@ -321,6 +321,41 @@ func TestVerifCacheHistories(t *testing.T) {
 	}
 }
 
+// Deeper histories over a narrow alphabet (two keys, re-sets, the time steps around the expiry
+// window): several keys queued in one wheel slot, one of them re-set later - the others must
+// still be dropped at their own time.
+func TestVerifCacheNarrowDeep(t *testing.T) {
+	defer vrt.WriteReport()
+	logx.Disable()
+	type cfg struct{ limit, expire, phase int }
+	cfgs := []cfg{{0, 3, 0}, {0, 3, 150}, {0, 3, 298}, {0, 10, 0}}
+	depth := 6
+	if vrt.Thorough() {
+		depth = 8
+	}
+	for i, c := range cfgs {
+		if !vrt.Shard(i + 21) {
+			continue
+		}
+		c := c
+		lo, hi := ccWindow(c.expire)
+		ops := []string{"set:a", "set:b", "set:c", "get:b", "t:1", fmt.Sprintf("t:%d", lo-1), fmt.Sprintf("t:%d", hi+1)}
+		vrt.BFS(vrt.Options{Name: fmt.Sprintf("cache/narrow/limit=%d/expire=%ds/phase=%d", c.limit, c.expire, c.phase), Budget: vrt.FairBudget(1)}, depth, ops, func(r *vrt.Run, hist []string) vrt.Step {
+			s := newCcSys(r, c.limit, c.expire, c.phase)
+			for _, op := range hist {
+				if op == "t:0" {
+					return vrt.Step{}
+				}
+				s.apply(op)
+				if r.Failed() {
+					return vrt.Step{Canon: "failed"}
+				}
+			}
+			return vrt.Step{Canon: s.canon()}
+		})
+	}
+}
+
 // concurrent Take callers of one key: at most one fetch among overlapping callers, all
 // get its result, cached only on success.
 func TestVerifCacheTake(t *testing.T) {
@@ -534,6 +569,83 @@ func TestVerifCacheBoundedConcurrent(t *testing.T) {
 			}
 			if !deleted && len(data) < x.limit {
 				r.Failf("cache holds %d entries %v after only gets, takes and sets on a full cache of limit %d", len(data), data, x.limit)
+			}
+		})
+	}
+}
+
+// A key is set again while the clock ticks through the expiry of its previous Set (the wheel
+// hands expired keys to a goroutine of its own): whatever the interleaving, the value of the
+// second Set is still there while less than 95% of its expiry has passed since, and it is
+// gone (not kept for ever) after 105%.
+func TestVerifCacheExpiryVsSet(t *testing.T) {
+	defer vrt.WriteReport()
+	logx.Disable()
+	bound := 2
+	if vrt.Thorough() {
+		bound = 3
+	}
+	for i, second := range []string{"set", "del+set", "take"} {
+		if !vrt.Shard(25 + i) {
+			continue
+		}
+		second := second
+		vrt.Explore(vrt.Options{Name: "cache/expiry-vs-" + second, Bound: bound, Prune: true, Budget: vrt.FairBudget(1)}, func(r *vrt.Run) {
+			const expire = 3
+			lo, hi := ccWindow(expire)
+			vrt.SetRandHook(func() (int64, bool) { return vrt.FloatDraw(0.5), true })
+			c, err := NewCache(expire * time.Second)
+			if err != nil {
+				r.Failf("NewCache: %v", err)
+				return
+			}
+			vrt.Settle()
+			c.Set("a", "v1")
+			var setAt time.Duration
+			var wg sync.WaitGroup
+			wg.Add(2)
+			go func() {
+				defer wg.Done()
+				for i := 0; i < hi; i++ {
+					vrt.Advance(time.Second)
+				}
+			}()
+			go func() {
+				defer wg.Done()
+				vrt.Obs()
+				setAt = vrt.Elapsed()
+				switch second {
+				case "set":
+					c.Set("a", "v2")
+				case "del+set":
+					c.Del("a")
+					c.Set("a", "v2")
+				case "take":
+					// present: the hit refreshes nothing; absent: fetched and cached afresh
+					if v, err := c.Take("a", func() (any, error) { return "v2", nil }); err != nil || (v != "v1" && v != "v2") {
+						r.Failf("Take(a) = %v, %v", v, err)
+					}
+				}
+			}()
+			wg.Wait()
+			vrt.Settle()
+			age := int((vrt.Elapsed() - setAt) / time.Second)
+			v, ok := c.Get("a")
+			r.Outcome("set at +%v, %ds later: present=%v", setAt, age, ok)
+			if second != "take" {
+				if age < lo && (!ok || v != "v2") {
+					r.Failf("key set (v2) at +%v is %v,%v only %d s later (expiry %d s): dropped before 95%% of its expiry", setAt, v, ok, age, expire)
+				}
+				if ok && v != "v2" {
+					r.Failf("Get(a) = %v after the second Set(v2) completed", v)
+				}
+			}
+			// and nothing stays for ever
+			for i := 0; i < hi+1; i++ {
+				vrt.AdvanceSettle(time.Second)
+			}
+			if v, ok := c.Get("a"); ok {
+				r.Failf("key a (%v) is still cached %v after its last Set at +%v (expiry %d s): it never expires", v, vrt.Elapsed()-setAt, setAt, expire)
 			}
 		})
 	}
